@@ -72,7 +72,9 @@ def main():
         rc = mod.replay(json.load(open(args.replay)))
         sys.exit(rc)
 
-    ev_path = os.path.join(VERIF, "evidence", f"{pid}.json")
+    # (HMCLAB_EVIDENCE: where runs against scratch copies with seeded changes put their evidence, so that the evidence
+    #  of the real tree is not touched)
+    ev_path = os.path.join(os.environ.get("HMCLAB_EVIDENCE") or os.path.join(VERIF, "evidence"), f"{pid}.json")
     os.makedirs(os.path.dirname(ev_path), exist_ok=True)
     try:
         os.remove(ev_path)
